@@ -247,6 +247,7 @@ def run(prog, ctx):
     # ------------------------------------------------------------------ D5 / D6
     check_memo_invalidation(prog, ctx)
     check_freshness(prog, ctx)
+    check_normalised_levels_from_structure(prog, ctx)
 
     # ------------------------------------------------------------------ D4
     ft = None
@@ -400,3 +401,31 @@ def check_freshness(prog, ctx):
                       "slices recorded in one container show up in the other" % src(x))
     if not hits:
         ctx.ok("C11.D6", "Extrapolation::no-shallow-self-copies", "sparseSpACE/Extrapolation.py", "no object is created as a shallow copy of another one")
+
+
+def check_normalised_levels_from_structure(prog, ctx):
+    """C11.D7: the container-local ("normalised") levels of a container with more than one slice are those of the complete 2^k-slice
+    grid the container is extrapolated as: they follow from the NUMBER of its points alone (bisection of the index range).  The tree
+    levels of the global grid (get_grid_levels) must not enter: in an adaptive grid the inner points of a container come from different
+    subtrees, shifting their levels gives a level pattern no complete grid has, and the container's Romberg weights no longer sum to its
+    width."""
+    fi = prog.func(EX + "ExtrapolationGridSliceContainer.get_normalized_grid_levels")
+    ctx.touch(fi)
+    tm = Terms(fi.node, max_depth=0)
+    c = cfg_of(fi)
+    rets = [n for n in c.nodes if n.kind == "stmt" and isinstance(n.ast, ast.Return) and n.ast.value is not None and n.idx in c.reachable()]
+    n = 0
+    for rn in rets:
+        facts = [g for (g, gn) in R.dominating_guards(fi, rn, tm) if gn.kind == "test"]
+        unit = any(g[0] == "cmp" and g[1] == "Eq" and ("c", "2") in (g[2], g[3]) for g in facts)
+        if unit:
+            continue                       # a single slice: its two end points keep their levels
+        n += 1
+        t = R.resolve_locals(fi, tm.term(rn.ast.value), rn, tm)
+        uses = [x for x in subterms(t) if isinstance(x, tuple) and x and x[0] == "call" and isinstance(x[1], tuple) and x[1][0] == "a"
+                and x[1][2] in ("get_grid_levels", "get_levels")]
+        ctx.check(not uses, "C11.D7", R.key_of(fi, "normalised-levels-from-structure#%d" % n), fi.loc(rn.ast),
+                  "the normalised levels of a multi-slice container are computed from the number of its points only",
+                  "`%s`: the normalised levels of a container with several slices are derived from the tree levels of the global grid "
+                  "(get_grid_levels) instead of from the container's own index structure" % src(rn.ast)[:100])
+    ctx.floor("C11.D7", n, 1, "multi-slice return paths of get_normalized_grid_levels")
